@@ -51,7 +51,7 @@ TNext ==
            /\ sK' = x.ks /\ sH' = x.hs /\ sSid' = x.sids
            /\ altered' = (IF isAltered THEN {R.alter} ELSE {}) /\ attacked' = R.applied
            /\ first' = <<x0.hc, x0.hs>>
-           /\ UNCHANGED <<ce, cgrp, net>>
+           /\ UNCHANGED <<ce, se, cgrp, net>>
 TSpec == TInit /\ [][TNext]_tvars
 Report == /\ (bad # {} => PrintT(<<"VERDICT", tid, l - 1, bad>>))
           /\ (l = NX + 1 => PrintT(<<"DONE", tid>>))
